@@ -544,7 +544,8 @@ pub fn inject(t: &mut Tape, item: &mut Item, class: usize) -> Option<Expected> {
             }
             let tr = t.pick(&trs).clone();
             let fall = tr.fallible();
-            let mk = |ty: &str, params: Vec<TParam>| Instr::Trait(TraitInstr { name: tr.name.clone(), ty: ty.into(), hint: None, err: if fall { Some("E".into()) } else { None }, params });
+            let zq_hint = if tr.ty.starts_with('(') { Some(Hint::Tuple) } else { tr.hint };
+            let mk = |ty: &str, params: Vec<TParam>| Instr::Trait(TraitInstr { name: tr.name.clone(), ty: ty.into(), hint: zq_hint, err: if fall { Some("E".into()) } else { None }, params });
             let (instrs, msg): (Vec<Instr>, &str) = match t.below(9) {
                 // the repeating instruction leaves the parameter unset; a follower that sets it without skip_repeat would lose it
                 7 => (vec![mk("Zr1", vec![TParam::Repeat(vec![]), TParam::Vars(vec![("zv".into(), "1".into())])]), mk("Zr2", vec![TParam::Update("upd()".into())])], "Update statement will be overriden. Did you forget to use 'skip_repeat'?"),
@@ -722,9 +723,12 @@ impl Part for Faults {
             // still valid: a repeated parameter of one category and a follower that owns a parameter of another category
             let trs: Vec<TraitInstr> = item.trait_instrs().into_iter().cloned().collect();
             // (Into-only instruction names: extra From kinds would make a default-less #[ghost] of the base invalid)
-            if let Some(tr) = trs.iter().find(|x| !x.kinds().iter().any(|k| *k == FO || *k == FR)).cloned() {
+            // (and not into_existing names: `..update` has no meaning there)
+            if let Some(tr) = trs.iter().find(|x| !x.kinds().iter().any(|k| *k == FO || *k == FR || *k == OIE || *k == RIE)).cloned() {
                 let fall = tr.fallible();
-                let mk = |ty: &str, params: Vec<TParam>| Attr::bare(Instr::Trait(TraitInstr { name: tr.name.clone(), ty: ty.into(), hint: None, err: if fall { Some("E".into()) } else { None }, params }));
+                // the added counterparts are built in the same form as the one they are modelled on (default #[ghosts] apply to them too)
+                let zq_hint = if tr.ty.starts_with('(') { Some(Hint::Tuple) } else { tr.hint };
+                let mk = |ty: &str, params: Vec<TParam>| Attr::bare(Instr::Trait(TraitInstr { name: tr.name.clone(), ty: ty.into(), hint: zq_hint, err: if fall { Some("E".into()) } else { None }, params }));
                 let (carrier, follower): (Vec<TParam>, Vec<TParam>) = match t.below(4) {
                     0 => (vec![TParam::Repeat(vec!["update".into()]), TParam::Update("Default::default()".into())], vec![TParam::DefaultCase("todo!()".into())]),
                     1 => (vec![TParam::Repeat(vec!["vars".into()]), TParam::Vars(vec![("zv".into(), "1".into())])], vec![TParam::Update("upd()".into())]),
